@@ -153,7 +153,7 @@ func runProperty(eng *Engine, prop, tier string, seed int, loadSecs float64) *Ch
 // obligations that time out.
 func runPropertyFiltered(eng *Engine, prop, tier string, seed int, loadSecs float64, only map[string]bool, retry bool) *CheckRun {
 	run := &CheckRun{Prop: prop, Tier: tier, Seed: seed, Assumptions: map[string]bool{}, LoadSecs: loadSecs}
-	budget := 4000
+	budget := 6000
 	if tier == "thorough" {
 		budget = 20000
 	}
@@ -645,7 +645,7 @@ func cmdLock(args []string) int {
 		return 3
 	}
 	lock := readLock()
-	os.Setenv("GOVC_BUDGET_MS", "4000")
+	os.Setenv("GOVC_BUDGET_MS", "6000")
 	os.Setenv("GOVC_ALL", "1")
 	for _, p := range props {
 		count := map[string]int{}
@@ -655,7 +655,11 @@ func cmdLock(args []string) int {
 			for _, it := range run.Items {
 				if it.Status == "discharged" && it.Kind != "cover" {
 					count[it.Name]++
-					if it.Secs > 1.0 {
+					limit := 1.0
+					if it.contract {
+						limit = 3.5 // contract clauses may be slower; a locked one that times out is retried with 30 s
+					}
+					if it.Secs > limit {
 						slow[it.Name] = true
 					}
 				}
